@@ -1,4 +1,5 @@
 import Replicon.Proofs.Server
+import Replicon.Proofs.Belief
 /-
 C11 — Acknowledged data is not re-sent and an idle server is silent.
 
@@ -64,5 +65,36 @@ example : (runClient exServer 10 { authorized := true, mutTick := [(7, 6)] }).2.
 example : (runClient exServer 10 { authorized := true, mutTick := [(7, 8)] }).2.mutEnts = [] ∧
     (runClient exServer 10 { authorized := true, mutTick := [(7, 8)] }).2.update = none := by
   decide
+
+/-- **The server's belief never runs ahead of the last replication run — over ALL histories of the
+joint server model** (`Proofs/Belief.lean`; no hypothesis on the history at all).  For every client
+of every reachable state: every tick the server takes a tracked entity to be acknowledged at, and
+the run tick of every mutate message still awaiting its acknowledgement, is at most the change tick
+of the last replication run, which lies before the current change tick.  Together with Bevy's
+change detection (every change between two runs is stamped after the earlier one) this is why
+"changed after the belief" (`C11_resend_until_ack`) covers every change the client can have
+missed, and why acknowledging (`C11_ack_sound`) can never move a belief past data that was not
+yet sent. -/
+theorem C11_history_belief (s0 : Srv.Server) (hc0 : s0.clients = []) (ht : s0.lastRun < s0.now) (ops : List Joint.Op) :
+    (Joint.run { srv := s0 } ops).1.srv.lastRun < (Joint.run { srv := s0 } ops).1.srv.now ∧
+    ∀ x ∈ (Joint.run { srv := s0 } ops).1.srv.clients,
+      (∀ e t, Srv.aget x.2.mutTick e = some t → t ≤ (Joint.run { srv := s0 } ops).1.srv.lastRun) ∧
+      (∀ i ∈ x.2.inflight, i.tick ≤ (Joint.run { srv := s0 } ops).1.srv.lastRun) :=
+  Joint.history_belief s0 hc0 ht ops
+
+/-- Non-vacuity of `C11_history_belief`: entity 5 is sent at run 2, mutated, re-sent in a mutate
+message of run 4 (in flight: belief still 2, last run 4); after the acknowledgement the belief is 4,
+the last run still 4, the clock at 7. -/
+example :
+    let s0 : Srv.Server := { rates := [(0, .every)] }
+    let ops2 : List Joint.Op :=
+      [.start, .connect 0 true, .spawn 5 true [(0, 7)], .frame true 10 (fun _ => []), .mutate 5 0 9,
+       .frame true 10 (fun c => if c = 0 then [[5]] else [])]
+    let ops : List Joint.Op := ops2 ++ [.ack 0 [0], .frame false 10 (fun _ => [])]
+    ((Joint.run { srv := s0 } ops2).1.srv.clients.map fun x => (x.2.mutTick, x.2.inflight.map (·.tick)),
+      (Joint.run { srv := s0 } ops2).1.srv.lastRun, (Joint.run { srv := s0 } ops2).1.srv.now) = ([([(5, 2)], [4])], 4, 5) ∧
+    ((Joint.run { srv := s0 } ops).1.srv.clients.map fun x => (x.2.mutTick, x.2.inflight.map (·.tick)),
+      (Joint.run { srv := s0 } ops).1.srv.lastRun, (Joint.run { srv := s0 } ops).1.srv.now) = ([([(5, 4)], [])], 4, 7) := by
+  refine ⟨by rfl, by rfl⟩
 
 end Replicon.C11
